@@ -8,13 +8,13 @@ META = {
     "opaque (uninterpreted Bool result per algo and run), every invocation is recorded in ghost heap state (call count, clock stamp), and the loops are cut at inductive invariants "
     "with ghost witnesses (index of the first failing algo, index of a succeeding Or branch). Proved: result == conjunction of results; the algos invoked are exactly the prefix up to "
     "the first failure plus the run_always ones after it, each exactly once (in stack order in the mode without run_always); Or invokes every branch exactly once in order and returns "
-    "their disjunction; Not inverts after one invocation; Strategy.run clears temp before its stack starts, keeps perm, invokes its own stack exactly once on itself and then runs every child exactly once.",
+    "their disjunction; Not inverts after one invocation; Require returns the predicate's own result on the temp entry, applied exactly when the entry is present and not None, and if_none otherwise, writing nothing; RunIfOutOfBounds returns True exactly when some child named in temp['weights'] deviates from its target by more than the tolerance in relative terms (loop invariant: no child so far deviates; early exit justified by the current child), True without target weights; Strategy.run clears temp before its stack starts, keeps perm, invokes its own stack exactly once on itself and then runs every child exactly once.",
 }
 MANIFEST_ENTRY = {
     "level_text": "Deductive proof for stacks of any length, any pattern of returns and any placement of run_always algos (loop invariants over ghost call counts and stamps), "
     "nested stacks by modularity; Strategy.run proved against its ghost call log.",
     "level_note": "Algos are opaque deterministic functions of the run (A-DET) and pairwise distinct objects within one stack; invocation order inside the run_always mode is proved only as exact call counts; "
-    "Require and RunIfOutOfBounds are not yet under contract (RunIfOutOfBounds' cash branch is a recorded defect: targets.value on a dict).",
+    "RunIfOutOfBounds is verified on a fresh tree (root not stale at entry) and for non-zero targets of held children; its cash branch is a recorded defect (known finding: targets.value on a dict/Series).",
     "technique": "contract-based deductive verification: VCs from the real AST (pyvc) + z3; loop invariants with ghost call log and existential witnesses",
 }
 
@@ -24,6 +24,8 @@ def tasks(tier, seed):
         func("bt.core.AlgoStack.__call__"),
         func("bt.algos.Or.__call__"),
         func("bt.algos.Not.__call__"),
+        func("bt.algos.Require.__call__"),
+        func("bt.algos.RunIfOutOfBounds.__call__"),
         func("bt.core.Strategy.run"),
         dict(kind="custom", module="props.bounded", fn="run_script", script="c13_stacks", seed=seed, n=300 if tier == "quick" else 5000, props=["C13"]),
     ]
@@ -36,3 +38,34 @@ def post(results, tier, seed):
 
 def replay(o):
     return o.get("replay_inline")
+
+
+KNOWN_WITNESS_SRC = """
+import json, warnings
+import numpy as np, pandas as pd
+warnings.filterwarnings("ignore")
+import bt
+from bt import algos as A
+idx = pd.bdate_range("2020-01-01", periods=8)
+data = pd.DataFrame({"a": np.linspace(100, 110, 8), "b": np.linspace(50, 49, 8)}, index=idx)
+class SetCash(A.Algo):
+    def __call__(self, target):
+        target.temp["cash"] = 0.2
+        return True
+s = bt.Strategy("s", [A.SelectAll(), A.WeighEqually(), SetCash(), A.Or([A.RunOnce(), A.RunIfOutOfBounds(0.5)]), A.Rebalance()])
+try:
+    bt.Backtest(s, data, progress_bar=False).run()
+    print("JSON:" + json.dumps(dict(still=False)))
+except AttributeError as e:
+    print("JSON:" + json.dumps(dict(still="has no attribute 'value'" in repr(e), error=repr(e)[:200])))
+"""
+
+
+def known_witness(f):
+    if f["id"] != "C13-out-of-bounds-cash-branch-reads-targets.value":
+        return None
+    from pyvc.replay import Scratch
+
+    with Scratch() as sc:
+        d = sc.run_json(KNOWN_WITNESS_SRC, timeout=120)
+    return bool(d.get("still"))
